@@ -393,7 +393,7 @@ NSHARD = 16
 
 
 def plan(tier):
-    n = 70 if tier == 'quick' else 400
+    n = 70 if tier == 'quick' else 800
     specs = [{'kind': 'machine', 'shard': i, 'examples': n} for i in range(NSHARD)]
     return specs
 
